@@ -9,13 +9,16 @@ export VERIF_DIR="$(cd "$(dirname "$0")" && pwd)"
 BIN="$(mktemp -d /tmp/vcheck-bin-XXXXXX)"
 trap 'rm -rf "$BIN"' EXIT
 cd "$VERIF_DIR/harness" || exit 3
-cp /repo/go.sum go.sum.repo 2>/dev/null && cat go.sum.repo go.sum.extra 2>/dev/null | sort -u > go.sum; rm -f go.sum.repo
+# the tree under test: /repo's working tree, unless VERIF_REPO points at another checkout (background sweeps on a snapshot)
+export VERIF_REPO="${VERIF_REPO:-/repo}"
+sed "s#=> /repo#=> $VERIF_REPO#" go.mod > "$BIN/go.mod"
+cat "$VERIF_REPO/go.sum" go.sum.extra 2>/dev/null | sort -u > "$BIN/go.sum"
 TAGS="verif"
 RACE=""
 case "$ID" in
   C19) RACE="-race"; TAGS="verif logtrace" ;;
 esac
-if ! go build $RACE -tags "$TAGS" -o "$BIN/vcheck" ./cmd/vcheck > "$BIN/build.log" 2>&1; then
+if ! go build -modfile="$BIN/go.mod" $RACE -tags "$TAGS" -o "$BIN/vcheck" ./cmd/vcheck > "$BIN/build.log" 2>&1; then
   cat "$BIN/build.log"
   echo "INCONCLUSIVE property=$ID reason=harness does not build against the current /repo tree"
   exit 2
